@@ -30,7 +30,7 @@ def cfg_text(n, maxops, opset, guards, invs):
 
 def model_check(ctx, name, n, maxops, opset):
     """design-level model check that must hold; returns the emitted combinations (list of per-thread op lists)"""
-    r = ctx.tlc_ok("C05MC", "C05MC_%s.cfg" % name, workers=8, timeout=3000, heap="8g", tag="mc-" + name,
+    r = ctx.tlc_ok("C05MC", "C05MC_%s.cfg" % name, workers=6, timeout=3000, heap="2g", tag="mc-" + name,
                    cfg_text=cfg_text(n, maxops, opset, "GuardsAll", INVS))
     seen, out = set(), []
     for l in r["out"].split("\n"):
@@ -50,7 +50,7 @@ def model_check(ctx, name, n, maxops, opset):
 
 def negative_check(ctx, guard):
     """a variant of the model with one guard removed must violate NoRace"""
-    r = ctx.tlc("C05MC", "C05MC_neg_%s.cfg" % guard, workers=4, timeout=1200, heap="4g", tag="neg-" + guard,
+    r = ctx.tlc("C05MC", "C05MC_neg_%s.cfg" % guard, workers=2, timeout=1200, heap="1g", tag="neg-" + guard,
                 cfg_text=cfg_text(2, 1, "NegOps", guard, "NoRace"))
     if not (r["violated"] and "Invariant NoRace is violated" in r["out"]):
         raise vlib.MachineryError("negative design check %s: TLC did not report the race (NoRace would be vacuous)\n%s" % (guard, r["out"][-2000:]))
@@ -63,7 +63,7 @@ def negative_check(ctx, guard):
 
 
 def validate_trace(ctx, f, what):
-    r = ctx.tlc("C05Trace", "C05Trace.cfg", env={"VERIF_RECS": f}, workers=1, timeout=3000, heap="6g", tag="trace-" + what)
+    r = ctx.tlc("C05Trace", "C05Trace.cfg", env={"VERIF_RECS": f}, workers=1, timeout=3000, heap="2g", tag="trace-" + what)
     got = [int(m) for m in re.findall(r'<<"CHECKED", (\d+)>>', r["out"])]
     n = sum(1 for _ in open(f))
     if r["error"] or r["rc"] != 0 or not got or got[0] != n:
@@ -188,7 +188,12 @@ def run(ctx):
         ctx.log("hook trace: %d events, %d operations on the published module (%d flagged objects), %d test-program chunks with %d global values; %d rejected" % (
             n_ev, tsumm["ops"], pub[0], tsumm["chunks"], tsumm["values"], len(bad)))
         groups = {}
-        for runname, op, e in explain_bad(tf, bad):
+        rejected = explain_bad(tf, bad)
+        # a counter left non-zero at the end is the consequence of a rejected begin/done of the same run
+        runs_with_writes = {r for r, _, e in rejected if e["ev"] in ("begin", "done", "freeze")}
+        for runname, op, e in rejected:
+            if e["ev"] == "final" and runname in runs_with_writes:
+                continue
             if e["ev"] == "publish":
                 raise vlib.MachineryError("run %s: a container reachable from the globals was not seen being frozen by the hooks (event %s)" % (runname, e))
             opk = "/".join((op or "?").split("/")[-3:][:2]) if runname == "module" else "testdata:" + (op or "?").split("/", 1)[-1]
@@ -197,8 +202,10 @@ def run(ctx):
         for sig, items in groups.items():
             runname, opk, e = items[0]
             # re-execute the first failing operation alone and validate again
+            if e["ev"] == "final":
+                opk = None
             if runname == "module":
-                tf2, _ = run_trace(ctx, b, only=opk, tag="trace-again")
+                tf2, _ = run_trace(ctx, b, only=opk, repo=False, tag="trace-again")
             else:
                 tf2, _ = run_trace(ctx, b, onlyrun=runname, tag="trace-again")
             _, bad2, _ = validate_trace(ctx, tf2, "again")
@@ -263,7 +270,7 @@ def run(ctx):
             tops = top_frames(again["race"])
             ctx.violation(sig, "DATA RACE while %d goroutines ran %s on one published module: %s" % (p["g"], name, " <-> ".join(tops)),
                           {"case": case, "iters": iters * 2, "report": again["race"][:4000]})
-        for m in p["mismatch"][:1]:
+        for m in (p["mismatch"] or [])[:1]:
             sig = "transcript:" + "/".join(m["op"].split("/")[:2])
             if sig in done_sigs:
                 continue
@@ -273,7 +280,7 @@ def run(ctx):
                 raise vlib.MachineryError("transcript mismatch of %s did not reproduce: %s" % (name, json.dumps(m)[:1500]))
             ctx.violation(sig, "while running %s concurrently, goroutine %d observed for %s: %s  -- alone it observes: %s" % (
                 name, m["goroutine"], m["op"], m["got"][:400], m["want"][:400]), {"case": case, "iters": iters * 2})
-        for m in p["mutated"][:1]:
+        for m in (p["mutated"] or [])[:1]:
             ctx.violation("mutation-accepted:" + m, "a mutation of a published value was not rejected while running %s: %s" % (name, m), {"case": case, "iters": iters})
 
     ctx.cov.update({
